@@ -285,6 +285,17 @@ def _loop(rep, ex: Explorer):
     summ[f"{OP}.get_violated_conditional"] = viol_summary
     summ[f"{OP}.exclude_violated"] = excl_summary
     summ["inference.optimizer.remove_supersets"] = rs_summary
+    # a method that only hands its arguments on to a function of the module (the object replaced by its state): the loop may
+    # call that function directly - it is the same step
+    import ast as _ast
+
+    for mname, h in (("get_violated_conditional", viol_summary), ("exclude_violated", excl_summary)):
+        mfi = ex.prog.lookup_method(OP, mname)
+        body = [st for st in (mfi.node.body if mfi else []) if not (isinstance(st, _ast.Expr) and isinstance(st.value, _ast.Constant))]
+        if len(body) == 1 and isinstance(body[0], _ast.Return) and isinstance(body[0].value, _ast.Call) and isinstance(body[0].value.func, _ast.Name):
+            tgt = ex.prog.resolve_name(mfi.module, body[0].value.func.id)
+            if tgt in ex.prog.functions and len(body[0].value.args) + len(body[0].value.keywords) == len(mfi.node.args.args):
+                summ[tgt] = h
 
     def setup(I):
         s, es = _mk(I, RC2, pmaxsat=Sym(("pmaxsat_solver",), "str"))
@@ -339,6 +350,8 @@ def _loop(rep, ex: Explorer):
                       extracted=f"loop back={back}, recorded={len(appends)}, blocked={len(adds)}", required="record ∅, stop", function=site)
         elif none_model is False and viol_empty is None and computes:
             others = [(k, v) for k, v in p.decisions if not (k[0] == "truthy" and isinstance(k[1], tuple) and k[1][:1] == ("mcall",)) and k[0] not in ("isnone", "truthy", "loopexit")]
+            if others and not any(e.kind == "viol" for e in evs):
+                raise AnalysisError(f"{site}: the enumeration does not obtain the falsified set through a step this rule knows (get_violated_conditional or what it delegates to)")
             if others:
                 rep.violation("MCS.loop", site, "termination test", "after a model was found the enumeration stops exactly when it falsifies nothing; every other found set is recorded, blocked and the search goes on",
                               extracted="stops / continues on " + "; ".join(show_pred(k if v else ("not", k))[:120] for k, v in others), required="found set == ∅", function=site)
